@@ -22,7 +22,7 @@ META = dict(
     decides='boundedness and non-emptiness invariant of the history for every history-size; single increment per change',
     undecided='arithmetic inside VecDeque; Serial::add wrap-around',
     trusted_base=['rustc MIR construction + callee resolution', 'VecDeque push_front/pop_back/truncate semantics (modelled)'],
-    rules=['K13 construct numbers serial+1 / merge keeps the newer serial', 'K3 queue writers', 'K1 push only on change', 'abstract interpretation of push_delta over (len, keep)'],
+    rules=['K13 construct numbers serial+1 / merge keeps the newer serial', 'K3 queue writers', 'K1 push only on change', 'abstract interpretation of push_delta over (len, keep)', 'AI serial() steps by one per change (queue of serials, serial re-assignment modelled)'],
 )
 
 
